@@ -379,6 +379,7 @@ const (
 	clauseCounter  = "after 5 consecutive failed exchanges the connection is closed"
 	clauseHostile  = "hostile client bytes yield well-formed responses or a close"
 	clauseLabel    = "errorResponse label = Model.C12.classify"
+	clauseTorn     = "a reply torn upstream is never delivered as a complete message (chunked: no terminating chunk), and the connection is not reusable afterwards"
 	clauseRelay    = "a relayed CONNECT rejection is a well-formed answer to the client's request: its protocol version, Connection: close as it asked"
 )
 
@@ -450,9 +451,8 @@ func knownClass(c *Case) string {
 			}
 		}
 		if c.Framing == "eof" && c.Reset && c.K >= len(c.head()) {
-			if pay, _ := c.payloadIn(c.K - len(c.head())); pay < len(c.body()) {
-				return "eof-body-reset" // F13
-			}
+			// (a reset right behind the last byte included: it may overtake bytes the proxy has not read yet)
+			return "eof-body-reset" // F13
 		}
 	case "tls", "label":
 		if c.Kind == "label" && c.What != "tls" {
@@ -531,7 +531,7 @@ func judge(ctx *core.Ctx, c *Case, o *Obs) {
 func judgeFault(ctx *core.Ctx, c *Case, o *Obs) {
 	impl := describeObs(o)
 	class := knownClass(c)
-	ctx.Count("via/" + c.Via + map[string]string{"": "", "up": "+upstream"}[c.Upstream])
+	ctx.Count("via/" + c.Via + map[string]string{"": "", "up": "+upstream"}[c.Upstream] + map[string]string{"": "", "handler": "@handler"}[c.Server])
 	if c.Kind == "dial" {
 		party := "origin"
 		if upstreamFault(c.Upstream) != "" {
@@ -547,7 +547,7 @@ func judgeFault(ctx *core.Ctx, c *Case, o *Obs) {
 		case c.K >= 0:
 			where = "body"
 		}
-		ctx.Count("cut/" + c.Framing + "/" + where + map[bool]string{true: "/rst", false: "/fin"}[c.Reset])
+		ctx.Count("cut/" + c.Framing + "/" + where + map[bool]string{true: "/rst", false: "/fin"}[c.Reset] + map[string]string{"": "", "handler": "@handler"}[c.Server])
 	} else if c.Fault != "" {
 		ctx.Count(c.Kind + "/" + c.Fault)
 	}
@@ -611,7 +611,7 @@ func judgeFault(ctx *core.Ctx, c *Case, o *Obs) {
 			}
 		}
 		for i, f := range fs {
-			ans := ctx.Model.MustAsk(append([]string{"C12", "stream", "fault=" + f}, ex...)...)
+			ans := ctx.Model.MustAsk(append([]string{"C12", c.streamVerb(), "fault=" + f}, ex...)...)
 			if i == 0 {
 				modelFirst = ans
 				if f := strings.Fields(ans); len(f) > 3 && f[0] == "error" {
@@ -669,7 +669,10 @@ func judgeFault(ctx *core.Ctx, c *Case, o *Obs) {
 		// upstream fault the property asks for an error response
 		fail(clauseClean, "connection closed without any response to an upstream fault")
 	case "error":
-		if res.Framing != "cl" || !res.Complete || (res.Proto != "HTTP/1.1" && res.Proto != "HTTP/1.0") || !strings.HasPrefix(res.Get("Content-Type"), "text/plain") {
+		// (through net/http's server the handler's early flush leaves the framing to the server: chunked, or
+		// close-delimited for an HTTP/1.0 client — self-delimiting all the same)
+		framed := res.Framing == "cl" || (c.Server == "handler" && (res.Framing == "chunked" || (res.Framing == "eof" && c.ReqMinor == 0)))
+		if !framed || !res.Complete || (res.Proto != "HTTP/1.1" && res.Proto != "HTTP/1.0") || !strings.HasPrefix(res.Get("Content-Type"), "text/plain") {
 			fail(clauseFramed, fmt.Sprintf("proto=%s framing=%s complete=%v content-type=%q", res.Proto, res.Framing, res.Complete, res.Get("Content-Type")))
 		}
 		if s.extra > 0 || s.garbage {
@@ -752,6 +755,17 @@ func checkErrorShape(ctx *core.Ctx, c *Case, s *seen, fail func(clause, detail s
 	diffs := wireDiffs(ans, res)
 	if mf := strings.Fields(ans); "HTTP/1."+mf[1] != res.Proto {
 		diffs = append(diffs, fmt.Sprintf("status line: got %s, model HTTP/1.%s", res.Proto, mf[1]))
+	}
+	if c.Server == "handler" {
+		// the fields of the response are the model's; its framing (and the Date field) are net/http's server's
+		kept := diffs[:0]
+		for _, d := range diffs {
+			if !strings.HasPrefix(d, "date: ") && !strings.HasPrefix(d, "transfer-encoding: ") && !strings.HasPrefix(d, "content-length: ") &&
+				!(strings.HasPrefix(d, "connection: ") && c.ReqMinor == 0) {
+				kept = append(kept, d)
+			}
+		}
+		diffs = kept
 	}
 	if len(diffs) > 0 {
 		ctx.Disagree("error response fields = Model.C12.writtenError", c, strings.Join(diffs, "; "), ans)
@@ -901,7 +915,13 @@ func checkStatus(ctx *core.Ctx, c *Case, s *seen, fail func(clause, detail strin
 // ---- hostile client input ----
 
 func judgeClient(ctx *core.Ctx, c *Case, o *Obs) {
-	ctx.Count("client/" + c.Via + "/" + c.What)
+	if strings.HasPrefix(c.What, "host/") {
+		judgeHost(ctx, c)
+		// the histogram keeps the class, not the single host
+		ctx.Count("client/" + c.Via + "/host")
+	} else {
+		ctx.Count("client/" + c.Via + "/" + c.What)
+	}
 	if !(c.Raw && c.Via == "tls") && nonUTF8Host(c.input()) {
 		// regression target (F35, repaired): the host reaches the dialer's metric labels
 		ctx.Count("client/non-utf8-host/" + c.Via)
@@ -944,7 +964,7 @@ func judgeClient(ctx *core.Ctx, c *Case, o *Obs) {
 				// regression target (F36): request lines naming another version than HTTP/1.0 and HTTP/1.1
 				ctx.Count("client/odd-version-request/answered-" + res.Proto)
 			}
-			if res.Has("X-Forwarder-Error") && res.Framing != "cl" && !bytes.Contains(bytes.ToUpper(c.input()), []byte("HEAD")) {
+			if res.Has("X-Forwarder-Error") && res.Framing != "cl" && !(c.Server == "handler" && res.Framing == "chunked") && !bytes.Contains(bytes.ToUpper(c.input()), []byte("HEAD")) {
 				ctx.SpecFail(clauseFramed, "", c, impl, "error response without Content-Length")
 				return
 			}
